@@ -421,10 +421,14 @@ def add_hooks(draw, c, feats):
                 cl.append(['attr', r])
             if names and draw(st.integers(0, 3)) == 0:
                 cl.append(['attr_value_not', names[0], ['str', 'forbidden']])
+            ints = [p['name'] for p in c['params'] if p.get('type') in ('int', 'float')]
+            if ints and draw(st.integers(0, 2)) == 0:
+                cl.append([draw(st.sampled_from(['attr_value_not', 'attr_value_not', 'attr_value'])),
+                           draw(st.sampled_from(ints)), ['int', draw(st.sampled_from([-1, 0, 7]))]])
             c['recognize'] = cl
     ops = []
     pool = ['dashes_to_unders', 'set_default', 'raise_if_has', 'get_missing',
-            'rename', 'word_to_int', 'int_add', 'int_add']
+            'rename', 'word_to_int', 'int_add', 'int_add', 'raise_bare_if_has']
     if 'adversarial' in feats:
         pool += ['to_scalar', 'to_seq', 'set_wrong', 'set_wrong']
     for _ in range(draw(st.integers(0, 2))):
@@ -434,7 +438,7 @@ def add_hooks(draw, c, feats):
         elif k == 'set_default' and opt:
             p = draw(st.sampled_from(opt))
             ops.append([k, p['name'], p['default']])
-        elif k == 'raise_if_has':
+        elif k in ('raise_if_has', 'raise_bare_if_has'):
             ops.append([k, draw(st.sampled_from(['zz', 'k'] + names))])
         elif k == 'get_missing':
             ops.append([k, draw(st.sampled_from(['zz'] + names))])
@@ -710,7 +714,10 @@ def models(draw, feats=(), max_classes=5, doc_type=None):
             sc = {'name': 'S', 'kind': 'obj', 'bases': [], 'params': [
                 {'name': 'items', 'type': (['dict', 'str', ['ref', xn]]
                                            if kind == 'dict' else ['list', ['ref', xn]])}],
-                  'index': ['items', pn, kind, xn]}
+                  'index': ['items', pn, kind, xn],
+                  # the sugared form does not match the signature, so (as in the
+                  # documentation's recipes) recognition is declared by hand
+                  'recognize': [['mapping'], ['attr', 'items']]}
             if kind == 'dict':
                 sc['savorize'] = [['map_to_index', 'items', pn, None]]
                 sc['sweeten'] = [['index_to_map', 'items', pn, None]]
